@@ -17,7 +17,7 @@ TYPES = ["Rtype", "Class", "SvcParamKey", "ExtendedErrorCode", "Opcode", "Option
 META = {
     "category": "model_checking",
     "text": "IanaParams.tla is the generic algebra of one IANA registry type (code range, table of (code, mnemonic, required/optional), generic prefix, style: prefix / mnemonic-or-decimal / decimal-only / hand-written rcode / new-API display) with writer operators (Display, to_mnemonic, ZonefileFmt token, serde human-readable) and reader operators (FromStr = from_bytes = scan, from_mnemonic, Deserialize); IanaTables.tla instantiates it for 23 types (Rtype, Class, SvcParamKey, ExtendedErrorCode, Opcode, OptionCode, TsigRcode, SecurityAlgorithm, DigestAlgorithm, Nsec3HashAlgorithm, ZonemdScheme/Algorithm, the three TLSA and two SSHFP types, the two IPSECKEY types, Rcode, OptRcode, new RType/RClass) from tables transcribed from the RFCs / the IANA registry, not from the source. TLC enumerates every code of every type's width (all 65536 for Rtype in the quick tier, for all nine 16-bit types in the thorough tier; boundary windows otherwise) and a text alphabet (every mnemonic in four capitalisations, registry and as-built spellings; the empty head, the generic prefix in three capitalisations and a mnemonic, each extended over {0 1 2 3 5 6 + - NUL e-acute A blank} to length 3 (5 thorough); range boundaries, 2^32+1, 2^64+1, padded and signed numbers) and decides in every state: tables well formed (no code or name twice, no mnemonic that looks like a generic form), read(write(c)) = c for every writer/reader pair, the generic form read for named codes too (RFC 3597 5), readers accept nothing but a mnemonic or prefix+digits in range. Every state becomes a case replayed on the real types through every route: from_int/to_int, ==/Ord/Hash against the codes, Display, to_mnemonic(_str), ZonefileFmt, serde_json both ways, FromStr, from_bytes, from_mnemonic, scan over an IterScanner, the zone-file reader (class position; NSEC type bitmap; DS, NSEC3PARAM, TLSA, SSHFP fields) -- routes reading the same form must agree -- plus is_glue, uses_lowercase_canonical_form, Rcode->OptRcode->TsigRcode conversions, OptRcode parts, and 87 named constants of the hand-written and new-API types against the registry. I->S: recorded random writes and reads (case-mangled mnemonics, 25-digit numbers, padded / signed / damaged forms) are validated by Trace_IanaParams.",
-    "note": "Properties stated by the builder (extension, not in properties.jsonl). Trusted: TLC, the transcription of the registries in IanaTables.tla (made offline from the RFCs; codes whose registry name could not be confirmed are listed as `unsure' and skipped: OptionCode 4/20292/26946, ExtendedErrorCode 19/28/30..40, SSHFP 0/2, all IPSECKEY names), the harness executor. A registry row registered after the date for which a type's documentation claims completeness is optional; the optional rows the library names are listed as `adopted' in the tables (Rtype ZONEMD SVCB HTTPS NXNAME; the new API's constants). Display of Opcode/OptionCode/TsigRcode (`MNEMONIC(n)') is compared but no round trip is claimed for it. Case-insensitivity of Rcode/OptRcode::from_str is not claimed either way (undocumented). Not covered: Debug output, the zone-file comment of the decimal style, compact (non-human-readable) serde formats, wire parse/compose of the types (C01/C02), `*' as alias of ANY for Rtype and ANY as alias of `*' for Class. Open: D_plus_sign, D_rcode_fromstr, D_nsap_ptr_mnemonic, D_tsig_notimpl_mnemonic, D_new_lowercase_subset.",
+    "note": "Properties stated by the builder (extension, not in properties.jsonl). Trusted: TLC, the transcription of the registries in IanaTables.tla (made offline from the RFCs; codes whose registry name could not be confirmed are listed as `unsure' and skipped: OptionCode 4/20292/26946, ExtendedErrorCode 19/28/30..40, SSHFP 0/2, all IPSECKEY names), the harness executor. A registry row registered after the date for which a type's documentation claims completeness is optional: for such a code the observation of the type without the row and of the type with the row (registry name, registry code) both conform (expectation `conforms'; a wrong code or name for it does not); the optional rows the library names today are listed as `adopted' in the tables (Rtype ZONEMD SVCB HTTPS NXNAME; the new API's constants) and are checked like required rows, so dropping one is reported. Display of Opcode/OptionCode/TsigRcode (`MNEMONIC(n)') is compared but no round trip is claimed for it. Case-insensitivity of Rcode/OptRcode::from_str is not claimed either way (undocumented). Not covered: Debug output, the zone-file comment of the decimal style, compact (non-human-readable) serde formats, wire parse/compose of the types (C01/C02), `*' as alias of ANY for Rtype and ANY as alias of `*' for Class. Open: D_plus_sign, D_rcode_fromstr, D_nsap_ptr_mnemonic, D_tsig_notimpl_mnemonic, D_new_lowercase_subset.",
     "technique": "TLA+ spec (IanaParams.tla + IanaTables.tla) + TLC exhaustive over codes and a text alphabet; spec->impl case replay through every route; impl->spec trace validation",
     "design_ref": "DESIGN.md §8 (extensions), §10.7 X14",
 }
